@@ -957,6 +957,12 @@ impl CommitEnv for LsmCommitEnv {
 			processed_batch.add_record(entry.kind, entry.key.clone(), encoded_value, timestamp)?;
 		}
 
+		// A batch that does not fit in an empty memtable can never be applied. Refuse it before
+		// it reaches the WAL: once logged it would fail every later recovery as well.
+		if !MemTable::can_hold(&processed_batch, self.core.opts.max_memtable_size)? {
+			return Err(Error::BatchTooLarge);
+		}
+
 		// Write to WAL for durability
 		let enc_bytes = processed_batch.encode()?;
 		let mut wal_guard = self.core.wal.write();
